@@ -611,6 +611,7 @@ type depthCase struct {
 	Hops   []int  `json:"hops,omitempty"` // explicit walk (field numbers) instead of the cyclic path
 	Width  int    `json:"width,omitempty"` // > 1: that many records per level (empty siblings before the nested one)
 	Cycle  int    `json:"cycle,omitempty"` // > 0: use the (Cycle-1)-th cycle of cyclePaths instead of the first one found
+	Overrun int   `json:"overrun,omitempty"` // > 0: field number of a map: Levels entries whose key (negative Limit) or value length claims the rest of the input
 	Alloc  int    `json:"alloc,omitempty"` // > 0: allocation growth between Levels and 2*Levels with an unknown record per level (1 varint before, 2 varint after, 3 bytes before, 4 bytes after the child)
 }
 
@@ -679,6 +680,19 @@ func runDepthArm(ctx *Ctx) {
 	for ti, t := range model.Types() {
 		if (ctx.OnlyFresh && !t.Fresh) || ti%ctx.NShards != ctx.Shard {
 			continue
+		}
+		// map fields whose key or value is length-delimited: entries that claim the rest of the input
+		for i := 0; i < t.Desc.Fields().Len(); i++ {
+			fd := t.Desc.Fields().Get(i)
+			if !fd.IsMap() {
+				continue
+			}
+			if k := fd.MapValue().Kind(); k == protoreflect.StringKind || k == protoreflect.BytesKind || k == protoreflect.MessageKind {
+				cases = append(cases, depthCase{Type: string(t.Name), Overrun: int(fd.Number()), Levels: 1500})
+			}
+			if fd.MapKey().Kind() == protoreflect.StringKind {
+				cases = append(cases, depthCase{Type: string(t.Name), Overrun: int(fd.Number()), Levels: 1500, Limit: -1})
+			}
 		}
 		for _, w := range messageWalks(t.Desc) {
 			cases = append(cases, depthCase{Type: string(t.Name), Hops: w, Limit: len(w)}, depthCase{Type: string(t.Name), Hops: w, Limit: len(w) + 1})
@@ -755,7 +769,7 @@ func runDepthArm(ctx *Ctx) {
 			var dc depthCase
 			parts := strings.SplitN(strings.TrimPrefix(ln, "DEPTH-BAD "), " :: ", 2)
 			_ = json.Unmarshal([]byte(parts[0]), &dc)
-			ctx.Violation(&Case{Sub: "depth", Type: dc.Type, Args: map[string]string{"levels": strconv.Itoa(dc.Levels), "limit": strconv.Itoa(dc.Limit), "hops": hopsStr(dc.Hops), "width": strconv.Itoa(dc.Width), "alloc": strconv.Itoa(dc.Alloc), "cycle": strconv.Itoa(dc.Cycle)}}, parts[1])
+			ctx.Violation(&Case{Sub: "depth", Type: dc.Type, Args: map[string]string{"levels": strconv.Itoa(dc.Levels), "limit": strconv.Itoa(dc.Limit), "hops": hopsStr(dc.Hops), "width": strconv.Itoa(dc.Width), "alloc": strconv.Itoa(dc.Alloc), "cycle": strconv.Itoa(dc.Cycle), "overrun": strconv.Itoa(dc.Overrun)}}, parts[1])
 			ctx.T.Fail()
 			current = ""
 		case ln == "DEPTH-DONE":
@@ -766,7 +780,7 @@ func runDepthArm(ctx *Ctx) {
 		// the child died: the case it announced last is the witness
 		var dc depthCase
 		if current != "" && json.Unmarshal([]byte(current), &dc) == nil {
-			ctx.Violation(&Case{Sub: "depth", Type: dc.Type, Args: map[string]string{"levels": strconv.Itoa(dc.Levels), "limit": strconv.Itoa(dc.Limit), "hops": hopsStr(dc.Hops), "width": strconv.Itoa(dc.Width), "alloc": strconv.Itoa(dc.Alloc), "cycle": strconv.Itoa(dc.Cycle)}},
+			ctx.Violation(&Case{Sub: "depth", Type: dc.Type, Args: map[string]string{"levels": strconv.Itoa(dc.Levels), "limit": strconv.Itoa(dc.Limit), "hops": hopsStr(dc.Hops), "width": strconv.Itoa(dc.Width), "alloc": strconv.Itoa(dc.Alloc), "cycle": strconv.Itoa(dc.Cycle), "overrun": strconv.Itoa(dc.Overrun)}},
 				fmt.Sprintf("child process died while decoding nesting depth %d with RecursionLimit %d (err=%v): %s", dc.Levels, dc.Limit, err, trunc(tailStr(out.String(), 600), 600)))
 			ctx.T.Fail()
 		} else {
@@ -798,7 +812,7 @@ func depthChild() {
 		if err != nil {
 			fmt.Printf("DEPTH-BAD %s :: %s\n", js, strings.ReplaceAll(err.Error(), "\n", " | "))
 		} else {
-			fmt.Printf("DEPTH-OK %s %d/%s/w%d/a%d/c%d %d %s\n", dc.Type, dc.Levels, hopsStr(dc.Hops), dc.Width, dc.Alloc, dc.Cycle, dc.Limit, verdict)
+			fmt.Printf("DEPTH-OK %s %d/%s/w%d/a%d/c%d/o%d %d %s\n", dc.Type, dc.Levels, hopsStr(dc.Hops), dc.Width, dc.Alloc, dc.Cycle, dc.Overrun, dc.Limit, verdict)
 		}
 	}
 	fmt.Println("DEPTH-DONE")
@@ -861,10 +875,77 @@ func allocGrowth(t *model.Type, path []hop, n, where int) (string, error) {
 	return fmt.Sprintf("alloc-growth-x%.1f", ratio), nil
 }
 
+// overrunInput builds n entries of map field fd in which the length of the key
+// (which == 1) or of the value (which == 2) claims every byte up to the end of
+// the whole input. No entry is well-formed: a decoder may reject the input, and
+// if it accepts it must not copy or re-parse the rest of the input per entry.
+func overrunInput(fd protoreflect.FieldDescriptor, n, which int) []byte {
+	pad4 := func(b []byte, v uint64) []byte {
+		return append(b, byte(v&0x7f)|0x80, byte((v>>7)&0x7f)|0x80, byte((v>>14)&0x7f)|0x80, byte((v>>21)&0x7f))
+	}
+	entry := func(claim int) []byte {
+		var e []byte
+		if which == 2 {
+			// a valid key first (default key: nothing at all is valid too), then the value
+			e = protowire.AppendTag(e, 2, protowire.BytesType)
+			return pad4(e, uint64(claim))
+		}
+		e = protowire.AppendTag(e, 1, protowire.BytesType)
+		return pad4(e, uint64(claim))
+	}
+	rec := func(claim int) []byte {
+		return protowire.AppendBytes(protowire.AppendTag(nil, fd.Number(), protowire.BytesType), entry(claim))
+	}
+	recSize := len(rec(0))
+	size := n * recSize
+	var b []byte
+	for i := 0; i < n; i++ {
+		b = append(b, rec(size-(i+1)*recSize)...)
+	}
+	return b
+}
+
+func checkOverrun(t *model.Type, dc depthCase) (string, error) {
+	fd := t.Desc.Fields().ByNumber(protoreflect.FieldNumber(dc.Overrun))
+	which := 2
+	if dc.Limit < 0 {
+		which = 1
+	}
+	if fd == nil || !fd.IsMap() {
+		return "", fmt.Errorf("HARNESS: %s has no map field %d", dc.Type, dc.Overrun)
+	}
+	in := overrunInput(fd, dc.Levels, which)
+	runtime.GC()
+	var m0, m1 runtime.MemStats
+	p := t.New()
+	runtime.ReadMemStats(&m0)
+	res, hung := decodeGuardedInto(p, in)
+	runtime.ReadMemStats(&m1)
+	if hung {
+		return "", fmt.Errorf("Unmarshal of %d map entries whose %s length claims the rest of the input (%d bytes) did not return within the watchdog", dc.Levels, []string{"", "key", "value"}[which], len(in))
+	}
+	if res.panicked != nil {
+		return "", fmt.Errorf("Unmarshal of %d map entries whose %s length claims the rest of the input panicked: %v", dc.Levels, []string{"", "key", "value"}[which], res.panicked)
+	}
+	alloc := m1.TotalAlloc - m0.TotalAlloc
+	budget := uint64(256<<10) + 64*uint64(len(in))
+	if alloc > budget {
+		return "", fmt.Errorf("allocation out of proportion to the input: %d entries of map %s whose %s length claims the rest of the input (%d bytes in all) made Unmarshal allocate %d bytes (result: %v; budget 256 KiB + 64 bytes per input byte)",
+			dc.Levels, fd.Name(), []string{"", "key", "value"}[which], len(in), alloc, res.err)
+	}
+	if res.err != nil {
+		return "overrun-rejected", nil
+	}
+	return "overrun-accepted-within-budget", nil
+}
+
 func checkDepth(dc depthCase) (string, error) {
 	t, err := mustType(dc.Type)
 	if err != nil {
 		return "", err
+	}
+	if dc.Overrun > 0 {
+		return checkOverrun(t, dc)
 	}
 	if dc.Alloc > 0 {
 		path := cyclePath(t.Desc)
@@ -923,7 +1004,7 @@ func checkDepth(dc depthCase) (string, error) {
 func replayC06(ctx *Ctx, c *Case) error {
 	switch c.Sub {
 	case "depth":
-		_, err := checkDepth(depthCase{Type: c.Type, Levels: c.argInt("levels"), Limit: c.argInt("limit"), Hops: parseHops(c.arg("hops")), Width: c.argInt("width"), Alloc: c.argInt("alloc"), Cycle: c.argInt("cycle")})
+		_, err := checkDepth(depthCase{Type: c.Type, Levels: c.argInt("levels"), Limit: c.argInt("limit"), Hops: parseHops(c.arg("hops")), Width: c.argInt("width"), Alloc: c.argInt("alloc"), Cycle: c.argInt("cycle"), Overrun: c.argInt("overrun")})
 		return err
 	case "fuzz":
 		return fuzzOne(ctx, unhex(c.Bytes))
